@@ -14,7 +14,7 @@ pub fn def() -> CheckDef {
         meta: CheckMeta {
             id: "C02",
             level: "fault_enumeration",
-            rule: "generated histories (small and large transactions, bucket deletes, growth from a 4-page file, page reuse) are executed by a worker process under the LD_PRELOAD I/O shim, which logs every write (offset, bytes), sync and file size on the database descriptor, with markers around every commit. For every group of writes between two completed syncs the analyser synthesises crash images on a scratch file: every subset of the unsynced writes (exhaustive up to 10 writes; above: none/all, singletons, complements, prefixes = process kill, suffixes, header-only, data-only, seeded random subsets), each write additionally torn at 512-byte sectors (prefix lost / tail lost / seeded sector subset) and header writes at 8-byte word granularity (every word prefix, every single word missing, every single word alone, seeded word subsets), with the file-size change durable or lost. Oracle per image: the independent parser says structurally sound and shows exactly S_{i-1} or S_i (exactly S_i once commit i has returned), and reopening through the public API succeeds and dumps the same. An evaluation is one distinct image (by content). Non-trivial = image with at least one but not all writes of its group applied, or a torn write.",
+            rule: "generated histories (small and large transactions, bucket deletes, growth from a 4-page file, page reuse, and histories whose free list spans several pages: a few hundred page-sized values deleted at once, then small commits) are executed by a worker process under the LD_PRELOAD I/O shim, which logs every write (offset, bytes), sync and file size on the database descriptor, with markers around every commit. For every group of writes between two completed syncs the analyser synthesises crash images on a scratch file: every subset of the unsynced writes (exhaustive up to 10 writes; above: none/all, singletons, complements, prefixes = process kill, suffixes, header-only, data-only, seeded random subsets), each write additionally torn at 512-byte sectors (prefix lost / tail lost / seeded sector subset) and header writes at 8-byte word granularity (every word prefix, every single word missing, every single word alone, seeded word subsets), with the file-size change durable or lost. Oracle per image: the independent parser says structurally sound and shows exactly S_{i-1} or S_i (exactly S_i once commit i has returned), and reopening through the public API succeeds and dumps the same. An evaluation is one distinct image (by content). Non-trivial = image with at least one but not all writes of its group applied, or a torn write.",
             assumptions: &[
                 "power-loss model: writes issued since the last completed fsync/fdatasync may be lost, reordered or torn at sector (header: word) granularity; a completed sync is durable including the file size",
                 "crashes during initial file creation are out of scope of the property",
@@ -192,7 +192,42 @@ pub fn analyse(case: &HistoryCase, dir: &Path, seed: u64, exhaustive_up_to: usiz
     Ok(a)
 }
 
+/// A history whose free list needs several pages: fill a bucket with a few hundred page-sized
+/// values, delete it, then small commits (each rewrites a multi-page free list).
+pub fn big_freelist_history(seed: u64) -> HistoryCase {
+    let mut txs = vec![TxSpec {
+        kind: TxKind::Commit,
+        ops: vec![
+            Op::GetOrCreate { b: 0, k: KeySel::Lit(b"big".to_vec()), kk: 2 },
+            Op::GetOrCreate { b: 0, k: KeySel::Lit(b"small".to_vec()), kk: 2 },
+        ],
+    }];
+    let runs = 5 + (seed % 4) as u16;
+    let mut fill = Vec::new();
+    for r in 0..runs {
+        fill.push(Op::PutRun { b: 0, base: vec![b'v'], start: r * 39, step: 1, n: 39, klen: 0, vlen: 900 });
+    }
+    txs.push(TxSpec { kind: TxKind::Commit, ops: fill });
+    txs.push(TxSpec { kind: TxKind::Commit, ops: vec![Op::DeleteBucket { b: 0, k: KeySel::Lit(b"big".to_vec()), kk: 2 }] });
+    for i in 0..4u16 {
+        txs.push(TxSpec {
+            kind: TxKind::Commit,
+            ops: vec![
+                Op::PutRun { b: 0, base: vec![b's'], start: i * 3, step: 1, n: 3 + (seed % 3) as u8, klen: 0, vlen: 100 + 50 * i },
+                Op::DeleteRun { b: 0, start: (seed as u16).wrapping_mul(977), n: 2 },
+            ],
+        });
+        if i == 1 && seed % 2 == 0 {
+            txs.push(TxSpec { kind: TxKind::Reopen, ops: vec![] });
+        }
+    }
+    HistoryCase { cfg: Cfg { pagesize: 1024, num_pages: 32, strict: false, populate: false }, fresh_handles: false, txs }
+}
+
 pub fn crash_history(seed: u64) -> HistoryCase {
+    if seed % 8 == 5 {
+        return big_freelist_history(seed);
+    }
     let w = OpWeights { get: 1, read_misc: 1, seek_range: 1, bucket_delete: 3, delete_run: 6, ..OpWeights::default() };
     let strat = history(7, 16, w, (10, 1, 1, 1));
     let mut h = gen_one(&strat, seed);
